@@ -31,7 +31,8 @@ PROP = "C33"
 WORKERS = os.environ.get("VF_PROCS") or "auto"
 SRC = "ab\ncd\n"                     # (1,1)=0 (1,2)=1 (2,1)=3 (2,2)=4
 OFFSET = {(1, 1): 0, (1, 2): 1, (2, 1): 3, (2, 2): 4}
-CONSTS_TRACE = {"MaxViols": 0, "MaxVariants": 0, "Wide": False}
+CONSTS_TRACE = {"MaxViols": 0, "MaxVariants": 0, "Profile": "narrow"}
+SMALL = os.environ.get("VF_SCOPE") == "small"     # development only: a strict subset of the quick tier
 
 
 # ------------------------------------------------------------------ projection (trusted base)
@@ -175,7 +176,7 @@ def sc_direction(rep: Report, consts: dict, what: str):
     if len(recs) * 2 != m.distinct:
         raise MachineryError(f"Report emitted {len(recs)} cases for {m.distinct} states")
     recs.sort(key=lambda r: json.dumps(r["inp"]))
-    tag = "w" if consts["Wide"] else "n"
+    tag = consts["Profile"][0]
     items = [(f"o{tag}{i}", r) for i, r in enumerate(recs)]
     chunks = [items[i:i + 2000] for i in range(0, len(items), 2000)]
     traces = [t for ch in pmap(_object_chunk, chunks, chunksize=1) for t in ch]
@@ -187,8 +188,9 @@ def sc_direction(rep: Report, consts: dict, what: str):
         t, r = by[rj["id"]]
         ev = t["events"][0]
         rep.violation(rj["clause"], {"level": "object", "codes": ",".join(sorted({x[0] for x in ev["inp"]}))},
-                      f"deduplicate_in_source_space on rows (code, fix, line, pos, desc, variant) {ev['inp']} "
-                      f"returned {ev['out']} (last field = input index)", {"kind": "object", "rec": r})
+                      f"deduplicate_in_source_space on the enumerated list (code, fix kind, line, pos, desc, variant) "
+                      f"{r['inp']}: objects projected as {ev['inp']} (fix / description ids interned in order of "
+                      f"appearance), returned {ev['out']} (last field = input index)", {"kind": "object", "rec": r})
     for t, (_, r) in zip(traces, items):
         ev = t["events"][0]
         if [x[5] for x in ev["out"]] != r["algo"]:
@@ -240,17 +242,17 @@ def cs_inputs(tier: str, seed: int):
                       "fname": f, "configs": None})
     tfx = list(sq.templater_fixtures())
     if tier == "quick":
-        tfx = sq.stratified(tfx, lambda p: os.path.basename(os.path.dirname(p)), 60, seed)
+        tfx = sq.stratified(tfx, lambda p: os.path.basename(os.path.dirname(p)), 20 if SMALL else 60, seed)
     for f in sorted(tfx):
         items.append({"id": "tf:" + os.path.relpath(f, sq.FIX), "text": sq.read(f), "dialect": "ansi",
                       "templater": "path", "fname": f, "configs": None})
     cases = [c for c in sq.rule_cases() if ("{%" in c["sql"] or "{{" in c["sql"]) and not c.get("skip")]
     if tier == "quick":
-        cases = sq.stratified(cases, lambda c: c["rule"], 120, seed)
+        cases = sq.stratified(cases, lambda c: c["rule"], 30 if SMALL else 120, seed)
     for c in sorted(cases, key=lambda c: c["id"]):
         items.append({"id": "rc:" + c["id"], "text": c["sql"], "dialect": "ansi", "templater": "jinja",
                       "fname": "<string>", "configs": c["configs"]})
-    for k in range(150 if tier == "quick" else 2000):
+    for k in range((30 if SMALL else 150) if tier == "quick" else 2000):
         items.append({"id": f"gen:{k}", "text": gen_template(rnd), "dialect": "ansi", "templater": "jinja",
                       "fname": "<string>", "configs": None})
     return items
@@ -342,10 +344,12 @@ def cs_direction(rep: Report, tier: str, seed: int):
 
 def run(tier: str, seed: int) -> int:
     rep = Report(PROP, tier, seed, "model_checking")
-    n = sc_direction(rep, {"MaxViols": 4, "MaxVariants": 3, "Wide": False},
+    n = sc_direction(rep, {"MaxViols": 3 if SMALL else 4, "MaxVariants": 3, "Profile": "narrow"},
                      "every list of <= 4 violations over 3 positions x {A, A+fix, PRS} from <= 3 variants")
+    n += sc_direction(rep, {"MaxViols": 3, "MaxVariants": 3, "Profile": "srcfix"},
+                      "every list of <= 3 violations over 3 positions x {A+fix, A+fix+source fix, B} from <= 3 variants")
     if tier == "thorough":
-        n += sc_direction(rep, {"MaxViols": 3, "MaxVariants": 3, "Wide": True},
+        n += sc_direction(rep, {"MaxViols": 3, "MaxVariants": 3, "Profile": "wide"},
                           "every list of <= 3 violations over 4 positions x 5 kinds x 2 descriptions from <= 3 variants")
     rep.exhaustive = True
     cs_direction(rep, tier, seed)
